@@ -14,15 +14,31 @@ np.outer np.dot np.matmul np.exp np.log np.sqrt np.sin np.cos np.arcsin np.arcco
 np.cumsum np.sort np.unique np.pad np.delete np.vstack np.hstack np.concatenate np.column_stack np.stack np.where
 np.interp np.isfinite np.isinf np.isnan np.any np.all np.logical_and np.logical_or np.logical_not np.argmax np.argmin
 np.argsort np.tril_indices np.triu_indices np.triu_indices_from np.tril_indices_from np.meshgrid np.iinfo np.finfo
-np.issubdtype np.ma.masked_less np.mean np.median np.std np.var np.clip np.sign np.square np.diff np.tile np.repeat
+np.issubdtype np.ma.masked_less np.mean np.median np.std np.var np.clip np.sign np.square np.tile np.repeat
 np.expm1 np.log1p np.log2 np.log10 np.tan np.arctan np.arctan2 np.hypot np.sinh np.cosh np.tanh np.mod np.remainder
 np.negative np.reciprocal np.nan_to_num np.count_nonzero np.searchsorted np.cross np.inner np.trace np.linalg.norm np.nanmax np.nanmin
 np.nansum np.sign np.trunc np.rint np.fabs np.floor_divide np.true_divide np.bincount np.histogram np.percentile np.quantile
-np.array_equal np.allclose np.isclose np.float64 np.float32 np.int64 np.int32 np.int16 np.int8
-len int float str bool abs round repr hash id isinstance issubclass callable type print range sum all any format divmod pow
+np.array_equal np.allclose np.isclose
+len int float str bool abs round repr hash id isinstance issubclass callable type print range all any format divmod pow
 bisect.bisect_left bisect.bisect_right warnings.warn
 pprint.pformat
 """.split())
+
+# --- functions whose result is FRESH OR THE FIRST ARGUMENT ITSELF, depending on the value / dtype of the argument
+#     (`np.float64(a) is a` for a float64 array, `np.diff(a, 0) is a`): result = alias of the first argument or fresh.
+#     The dynamic probe of c19.table_check found these in FRESH_FUNCS (audit R1); it runs on every check against the
+#     installed numpy, so an entry of FRESH_FUNCS that starts returning its argument or a view of it is a harness error.
+ALIAS_OR_FRESH_FUNCS = set("""
+np.float64 np.float32 np.float16 np.int64 np.int32 np.int16 np.int8 np.uint8 np.uint16 np.uint32 np.uint64 np.complex128
+np.complex64 np.bool_ np.double np.single np.intp np.longdouble np.diff
+""".split())
+# --- fresh container of the ELEMENTS OF THE ELEMENTS of the arguments, or the arithmetic sum (fresh): `sum(lists, [])`
+#     concatenates, so the result holds the very objects the inner lists hold
+SUM_FUNCS = set("sum".split())
+
+# --- entries of FRESH_FUNCS / FRESH_METHODS (`.name`) that the dynamic probe of c19.table_check cannot call on an array or a
+#     list (they take shapes, types or hashable values): nothing to alias.  Every other entry must be probed on every run.
+PROBE_EXEMPT = set("hash isinstance issubclass np.eye np.finfo np.identity np.iinfo np.issubdtype range round".split())
 
 # --- external routines known not to mutate their inputs; the result is fresh
 READONLY_FUNCS = set("""
@@ -56,6 +72,10 @@ OUT_POS = {
 COPY_POS = {"np.nan_to_num": 1, "np.ma.masked_less": 2}
 # --- keywords that let a routine use its inputs as scratch space (anything but the literal False: all arguments written)
 INPLACE_KW = set("overwrite overwrite_input overwrite_a overwrite_b overwrite_x overwrite_y inplace".split())
+# --- `overwrite_input` accepted POSITIONALLY (index): anything but the literal False there lets the routine use its input as
+#     scratch space.  Checked against the installed numpy's signatures on every run (every function of FRESH_FUNCS that has
+#     a parameter named in INPLACE_KW must be listed here with its position).
+INPLACE_POS = {"np.median": 3, "np.percentile": 4, "np.quantile": 4}
 # --- the same for methods of FRESH_METHODS (index among the method's own positional arguments)
 METHOD_OUT_POS = {"clip": 2, "sum": 2, "cumsum": 2, "prod": 2, "mean": 2, "std": 2, "var": 2, "dot": 1, "round": 1, "max": 1,
                   "min": 1, "any": 1, "all": 1, "argmin": 1, "argmax": 1, "trace": 4}
@@ -120,15 +140,28 @@ SELECT_FUNCS = set("min max next".split())
 # --- functions writing into an argument (index of the written argument)
 MUTATING_FUNCS = {"np.fill_diagonal": 0, "np.random.shuffle": 0, "np.put": 0, "np.place": 0, "np.copyto": 0,
                   "np.putmask": 0, "random.shuffle": 0, "heapq.heappush": 0, "heapq.heappop": 0, "heapq.heapify": 0,
-                  "np.ndarray.sort": 0, "list.sort": 0, "list.append": 0, "setattr": 0, "delattr": 0}
+                  "setattr": 0, "delattr": 0, "np.put_along_axis": 0, "operator.setitem": 0, "operator.delitem": 0,
+                  "operator.iadd": 0, "operator.isub": 0, "operator.imul": 0, "operator.itruediv": 0, "operator.iconcat": 0}
+
+# --- TYPES whose methods may be called through the type: `list.sort(x)`, `np.ndarray.fill(a, 0)`, `dict.update(d, …)`,
+#     `type(x).reverse(x)`, `x.__class__.sort(x)`, `map(list.sort, xs)`: the call is the method call `x.m(…)` on its first
+#     argument (audit R4), classified by the method tables below
+METHOD_OWNER_TYPES = set("""
+list dict set frozenset tuple str bytes bytearray object np.ndarray np.matrix np.generic np.ma.MaskedArray collections.deque
+collections.OrderedDict collections.defaultdict collections.Counter scipy.sparse.csr_matrix scipy.sparse.csc_matrix
+scipy.sparse.coo_matrix scipy.sparse.lil_matrix scipy.sparse.spmatrix
+""".split())
 
 # --- method names (receiver not resolvable to persim code)
 FRESH_METHODS = set("""
 astype copy flatten dot min max sum mean std var prod cumsum argmin argmax argsort any all round clip nonzero tolist
-format join split strip lower upper startswith endswith replace count index conj conjugate trace tobytes item
-todense toarray tocoo tolil isdigit encode decode
+format join split strip lower upper startswith endswith replace count index trace tobytes item
+todense toarray isdigit encode decode
 """.split())
-VIEW_METHODS = set("reshape ravel squeeze transpose view swapaxes tocsr tocsc".split())   # alias of the receiver (tocsr: or fresh)
+VIEW_METHODS = set("reshape ravel squeeze transpose view swapaxes".split())                 # alias of the receiver
+# the receiver itself or fresh, depending on its type / dtype: `a.conj() is a` for a real array, `m.tocoo() is m` for a COO
+# matrix and shares `m.data` for a CSR one (audit R2; found by the dynamic probe of c19.table_check)
+ALIAS_OR_FRESH_METHODS = set("tocsr tocsc tocoo tolil todia tobsr todok asformat conj conjugate".split())
 ELEM_METHODS = set("get keys values items".split())                                         # element(s) of the receiver
 MUTATOR_METHODS = set("""
 sort append extend insert pop remove clear fill resize reverse update setdefault add discard put itemset setflags
@@ -144,9 +177,13 @@ fill_between axhline axvline grid tight_layout colorbar set_ticks maximum_matchi
 HANDLE_PREFIXES = ("set_", "get_")
 
 # attributes
-VIEW_ATTRS = set("T real imag flat data".split())            # alias of the object itself
+VIEW_ATTRS = set("T mT real imag flat data base".split())    # alias of the object itself
 SCALAR_ATTRS = set("shape size ndim dtype __name__ itemsize nbytes".split())
-ARRAY_META_ATTRS = set("shape dtype flags strides data".split())   # assigning these rewrites the array in place
+# assigning these rewrites the array in place (`x.flat = 0`, `x.real = v`, `x.shape = s`; audit R3); `x.flags.writeable = b`
+# (an attribute of `x.flags`) likewise.  Assignment to ANY attribute no persim class defines is a write as well: only
+# attribute tables of persim instances are "not arrays or lists"
+ARRAY_META_ATTRS = set("shape dtype flags strides data flat real imag T mT base".split())
+ARRAY_META_OWNERS = set("flags".split())
 
 # parameters that are matplotlib handles, not "arrays or lists" (drawing on them is the function's purpose)
 HANDLE_PARAMS = set("ax fig axes".split())
@@ -157,10 +194,19 @@ EXC_SUFFIXES = ("Error", "Exception", "Warning", "StopIteration")
 TABLE_DOC = [
     ("copy/elem (alias)", "names, attribute loads (elem), basic slices and subscripts (copy+elem), iteration targets and tuple "
      "unpacking (copy+elem), `a or b` / `x if c else y` (copy from both), " + " ".join(sorted(VIEW_FUNCS)) +
-     "; methods " + " ".join(sorted(VIEW_METHODS)) + "; attributes " + " ".join(sorted(VIEW_ATTRS))),
+     "; methods " + " ".join(sorted(VIEW_METHODS)) + "; attributes " + " ".join(sorted(VIEW_ATTRS)) +
+     "; ALIAS OR FRESH (the argument / receiver itself for some dtypes or formats, `np.float64(a) is a`, `a.conj() is a`, "
+     "`m.tocoo()` on m's buffers): " + " ".join(sorted(ALIAS_OR_FRESH_FUNCS)) + "; methods " + " ".join(sorted(ALIAS_OR_FRESH_METHODS)) +
+     "; an index that is syntactically a NumPy boolean (a comparison with a multi-dimensional slice `S[:, 1]` on one side, "
+     "np.isfinite/isinf/isnan/logical_*/any/all, `~` / `&` / `|` of those) selects a copy (new); any other comparison / `~x` index "
+     "(`x[flag == True]`, `x[~0]`) is an element access"),
     ("new (fresh, no references kept)", "constants, arithmetic / comparison / unary operators, boolean-mask subscripts, f-strings, "
      "`np.array(x, ...)`-free numeric producers: " + " ".join(sorted(FRESH_FUNCS)) + "; methods " + " ".join(sorted(FRESH_METHODS)) +
-     "; read-only external routines " + " ".join(sorted(READONLY_FUNCS)) + "; builtin exception constructors"),
+     "; read-only external routines " + " ".join(sorted(READONLY_FUNCS)) + "; builtin exception constructors. Every function and method of this "
+     "row is PROBED on every run against the installed numpy / scipy (c19.fresh_probe: identity, np.shares_memory, in-place write to "
+     "the result, arguments unchanged; not probed, nothing array-like accepted: " + " ".join(sorted(PROBE_EXEMPT)) + "). A library "
+     "function of this row given a persim function / lambda / mutating bound method as an argument is an unknown call; "
+     "`sum` is a fresh container of the elements of the elements (sum(lists, []) concatenates)"),
     ("new + elem + store (fresh container aliasing elements)", " ".join(sorted(CONTAINER_OF_ITEMS)) + "; two-level: " +
      " ".join(sorted(CONTAINER_OF_TUPLES)) + "; flattening: " + " ".join(sorted(CONTAINER_FLATTEN)) + "; holding the arguments: " +
      " ".join(sorted(CONTAINER_OF_ARGS)) + "; list/tuple/set/dict literals and comprehensions; binary operators also keep the "
@@ -169,16 +215,21 @@ TABLE_DOC = [
     ("write x (in-place mutation)", "`x[...] = v` (write x, store x v), `x op= v` on a name (write x) or on a subscript (write x, "
      "write x[...]), `del x[...]`, assignment to array attributes " + " ".join(sorted(ARRAY_META_ATTRS)) + "; functions " +
      " ".join("%s(arg %d)" % kv for kv in sorted(MUTATING_FUNCS.items())) + "; methods " + " ".join(sorted(MUTATOR_METHODS)) +
-     " (inserting ones also `store`)"),
+     " (inserting ones also `store`). A method called through its type or a class object is the method call on its first "
+     "argument (`list.sort(x)`, `np.ndarray.fill(a, 0)`, `type(x).reverse(x)`, `x.__class__.sort(x)`, `L = list; L.sort(x)`, "
+     "`map(list.sort, xs)`): types " + " ".join(sorted(METHOD_OWNER_TYPES))),
     ("out / copy / overwrite arguments", "`out=x` by keyword on any call, or POSITIONALLY at the index of OUT_POS / METHOD_OUT_POS (" +
      " ".join("%s:%d" % kv for kv in sorted(OUT_POS.items())) + "; methods " + " ".join("%s:%d" % kv for kv in sorted(METHOD_OUT_POS.items())) +
      "): x (and, for `out=(x,)`, its element) is written and is the result; with *args every argument is taken as a possible out. "
      "`copy=` anything but the literal True, by keyword on any fresh / read-only function or positionally (" +
      " ".join("%s:%d" % kv for kv in sorted(COPY_POS.items())) + "; astype:4): the result may be the first argument itself, converted in "
      "place (np.array(x, copy=False/None/variable) is np.asarray). Keywords " + " ".join(sorted(INPLACE_KW)) +
-     " not literally False: every argument written. The positions are checked against the installed numpy on every run"),
-    ("setattr y v", "`y.attr = v` on any other attribute (instances are not arrays or lists; methods may update their object); "
-     "assignments to a property with a persim setter inline the setter"),
+     " not literally False, by keyword or positionally (" + " ".join("%s:%d" % kv for kv in sorted(INPLACE_POS.items())) +
+     "): every argument written. The positions are checked against the installed numpy on every run"),
+    ("setattr y v", "`self.attr = v`, and `y.attr = v` for an attribute name some persim class defines (assigned through `self` in a "
+     "method, class-level data, property): instances are not arrays or lists, methods may update their object; assignments to a "
+     "property with a persim setter inline the setter. `y.attr = v` / `y.attr op= v` for ANY OTHER attribute of anything but `self` "
+     "is `write y` (an ndarray / sparse-matrix / library-object attribute), and so is `y.flags.<x> = v`"),
     ("matplotlib handles", "parameters named " + " ".join(sorted(HANDLE_PARAMS)) + " and every result of plt.* are handles (fresh site, "
      "not caller-owned); methods " + " ".join(sorted(HANDLE_METHODS)) + " and set_*/get_* write the receiver and may store the arguments; "
      "plt.* reads and writes the global PYPLOT"),
@@ -198,12 +249,33 @@ TABLE_DOC = [
      "reachable from the arguments and from the receiver / bound object may be written and linked to any other, the result is any "
      "of them or fresh, function-valued arguments may be called on anything reachable, module-level state may be read and written"),
     ("globals", "module-level data names: readGlobal (value caller-visible, i.e. OWNED) unless listed as constants in policy.json; "
-     "`global x; x = …` writeGlobal; mutable default arguments are caller-visible (OWNED); verification hooks `_VERIF_*` are skipped. "
+     "`global x; x = …` writeGlobal; mutable default arguments are caller-visible (OWNED); a name bound by nothing the translator reads "
+     "is module-level state (readGlobal, OWNED). Verification hooks: ONLY the statements listed word for word in policy.json "
+     "`verif_hooks` (with the reviewed module-level binding of their `_VERIF_*` name) are left out; any other `if` on such a name, an "
+     "`else` branch, any other use of the name is translated like any other code. "
      "CLASS attributes (`C.x`, `type(self).x`, `self.__class__.x`; dunder names excepted), FUNCTION attributes (`f.calls`), attributes / "
      "items of modules and library objects (`os.environ[k] = v`, `np.core.x = v`; matplotlib's are the PYPLOT global) are module-level "
      "state: reads readGlobal, stores writeGlobal. Library state functions: " +
      " ".join("%s(%s%s:%s)" % (k, "r" if v[1] else "", "w" if v[2] else "", v[0].replace(" ", "_")) for k, v in sorted(STATE_FUNCS.items())) +
      "; evaluating " + " ".join(sorted(STATE_READS)) + " is a read"),
+    ("module-level code, decorators, __init__.py", "a module may hold: a docstring, imports, `def`s, classes, and `NAME = <plain data>` (literals, "
+     "operators, conditional expressions, calls / attributes of non-persim library names). Anything else at module level (a statement, a "
+     "tuple / conditional binding, `f = wrap(f)`, a lambda bound to a name, a name bound twice, an import that makes a private persim "
+     "name public), in a class body (anything but docstring / def / plain data; a name bound twice; class keywords), a function "
+     "decorator other than property / <prop>.setter / staticmethod / abstractmethod, a class decorator not listed word for word in "
+     "policy.json `decorators_reviewed`, a decorated nested def: the translator REFUSES every entry point that runs code of that module / "
+     "class / function (TranslatorError: deliberately failing obligation). `__init__.py` files are modules like any other: their `def`s "
+     "are entry points, their problems refuse every entry point of the package"),
+    ("private classes, context managers, default values", "the special methods of a PUBLIC class are entry points; an instance of a "
+     "PRIVATE class that defines special methods other than __init__ is an unknown call on what it was built from (they run implicitly: "
+     "with / operators / len / iteration / subscripts / repr). `with cm as x`: x is cm or what the `__enter__` of a persim class returns; "
+     "`__exit__` is inlined. Default values of nested defs / lambdas are evaluated where the function is defined (`def g(col=a.T)`); "
+     "defaults of module-level functions naming a function (`kernel=gaussian`, `f=np.ndarray.sort`) are function values the parameter may hold"),
+    ("obligations that must not disappear", "harness/translator/expected_obligations.json (committed) lists the obligations of the unchanged "
+     "tree; `repeat_<entry>` of that list is emitted whether or not the entry point is still repeatable; names no longer generated, "
+     "modules with unmodelled module-level code and no entry point, and flagged writes of dynamic-only / in-place-by-contract entry points "
+     "that are not in policy.json `reviewed_unsafe_writes` are listed in Generated/ApiIR.lean `translationProblems`, obligation "
+     "`expected_obligations_present : translationProblems = []`"),
     ("loops", "a loop body (and a comprehension) is re-translated until the version sets of the names are stable; not stable after "
      "8 passes: TranslatorError (the entry point then gets a deliberately failing obligation)"),
 ]
